@@ -61,7 +61,7 @@ Definition citer_next (s : source) : outcome (option Z * source) :=
   else Ok (None, r).
 
 (* ---- codec -----------------------------------------------------------------------------------
-   feed case row:  [0; sinkkind; stop_at; method; items...]   method 0 feed_into_mut / 1 extend / 2 feed_into (by value)
+   feed case row:  [0; sinkkind; stop_at; method; items...]   method 0 feed_into_mut / 1 extend / 2 feed_into (by value) / 3,4 manual loop over Callbackable::call (same loop as feed)
        output: [count or -1] ; got ; never-offered
    iter case row:  [1; nops; ops(0 wrapper-next / 1 direct-next)... ; script (v>=0 => Some v, -1 => None)...]
        output: one cell pair per op [1 v | 0 0] flattened ; *)
